@@ -2,7 +2,12 @@
    Line-based readers: the tokens the scanner delivers are [lines data] for every schedule of read sizes
    (zero-length reads and data-with-EOF included), so every reader that is a function of the token list is
    schedule-independent.  STL: a block that is present in full is returned whole for every schedule.
-   TTML and teletext hand the stream to encoding/xml and astits: covered by the harness only. *)
+   TTML: ReadFromTTML hands the stream to xml.Decoder, whose own read loop (a bufio.Reader filled by whatever the
+   stream returns) is a CONTRACT here: the token tree it delivers does not depend on the read sizes.  From the token
+   tree on, the reader model (Model/Ttml.v read_ttml; at byte level Model/PlainTtml.v read_ttml_bytes = XML parser
+   model, then read_ttml) is a function of the whole document with no schedule parameter, so nothing schedule-dependent
+   is left to prove; the harness delivers TTML documents under every schedule family and compares with the one-shot
+   read.  Teletext hands the stream to astits: covered by the harness only. *)
 From Coq Require Import List NArith Bool Arith.
 From Astisub Require Import Kit.Base Kit.Scan Model.Srt Model.Vtt Proofs.ScanProofs Proofs.SrtIOProofs Proofs.VttIOProofs.
 Import ListNotations.
